@@ -455,7 +455,14 @@ def precedence_rule(ctx, rid):
                 rexp = arg(c, None, "resources")
                 ml = _merge_layers(cexp, m) if cexp is not None else None
                 found = True
-                if ml is None or [x.replace("dict(constants)", "constants") for x in ml] != ["self._constants", "constants"] or norm(rexp) != "self._resources":
+                if cexp is None and rexp is None and any(k.arg is None for k in c.keywords):
+                    raise AnalysisError("idiom changed: Runner.%s hands constants / resources to the runner through a keyword mapping (`**%s`)" % (mname, ", **".join(norm(k.value) for k in c.keywords if k.arg is None)))
+                mln = [x.replace("dict(constants)", "constants") for x in ml] if ml is not None else None
+                recognised_wrong = (mln is not None and sorted(mln) == ["constants", "self._constants"] and mln != ["self._constants", "constants"]) or (mln is not None and len(mln) == 1) or \
+                    (rexp is not None and norm(rexp) != "self._resources" and (norm(rexp) in ("None", "{}") or "self._constants" in norm(rexp)))
+                if (mln != ["self._constants", "constants"] or rexp is None or norm(rexp) != "self._resources") and not recognised_wrong:
+                    raise AnalysisError("idiom changed: Runner.%s passes constants=%s, resources=%s" % (mname, norm(cexp) if cexp else None, norm(rexp) if rexp else None))
+                if ml is None or mln != ["self._constants", "constants"] or norm(rexp) != "self._resources":
                     rr.bad(ctx.finding(rid, m, c, "Runner.%s passes constants=%s, resources=%s; expected stored constants overridden by the call's constants, and the stored resources" % (mname, norm(cexp) if cexp else None, norm(rexp) if rexp else None),
                                        construct="runner-precedence " + mname), "runner %s precedence" % mname)
                 else:
@@ -508,6 +515,29 @@ def record_table(ctx):
             if isinstance(a0, ast.Dict):
                 rec = a0
     need(rec is not None, "idiom changed: save_info does not write a dict display")
+    # the record may be completed after the display: rec_name[<const>] = v, and `for a in CONSTANTS: rec_name[a] = getattr(self, a)`
+    rec_name = None
+    for nd, c, nm in all_calls(ctx, si):
+        if nm == CROP + ".write_to_disk" and c.args and isinstance(c.args[0], ast.Name):
+            rec_name = c.args[0].id
+    later = {}
+    if rec_name is not None:
+        for st_ in walk_shallow(si.node):
+            if isinstance(st_, ast.Assign) and isinstance(st_.targets[0], ast.Subscript) and norm(st_.targets[0].value) == rec_name:
+                sl_ = st_.targets[0].slice
+                par_ = getattr(st_, "_parent", None)
+                if isinstance(sl_, ast.Constant) and not isinstance(par_, (ast.For, ast.While, ast.If)):
+                    later[sl_.value] = norm(st_.value)
+                elif isinstance(sl_, ast.Name) and isinstance(par_, ast.For) and norm(par_.target) == sl_.id and norm(st_.value) == "getattr(self, %s)" % sl_.id:
+                    try:
+                        for it in ConstFold(ctx, si).ev(par_.iter):
+                            later[it] = "self." + it
+                    except AnalysisError:
+                        raise AnalysisError("idiom changed: settings record filled in a loop over a non-constant sequence: %s" % norm(par_.iter))
+                else:
+                    raise AnalysisError("idiom changed: settings record entry `%s`" % norm(st_)[:60])
+            elif isinstance(st_, ast.Expr) and isinstance(st_.value, ast.Call) and isinstance(st_.value.func, ast.Attribute) and norm(st_.value.func.value) == rec_name and st_.value.func.attr in ("update", "setdefault", "pop"):
+                raise AnalysisError("idiom changed: settings record modified by `%s`" % norm(st_.value)[:60])
     written = {}
     for k, v in zip(rec.keys, rec.values):
         if isinstance(k, ast.Constant):
@@ -526,6 +556,7 @@ def record_table(ctx):
                         raise AnalysisError("idiom changed: settings record comprehension %s" % norm(v))
             else:
                 raise AnalysisError("idiom changed: settings record splat %s" % norm(v))
+    written.update(later)
     restored = {}
     g = build_cfg(sy.node)
     setts = [nd.ast.targets[0].id for nd in g.nodes if nd.kind == "stmt" and isinstance(nd.ast, ast.Assign) and isinstance(nd.ast.targets[0], ast.Name) and isinstance(nd.ast.value, ast.Call)
